@@ -76,6 +76,7 @@ def subspaces(tier):
         combos = [(b, c, v) for b in BUILDERS for c in CONFIGS for v in (0, 1)]
     for b, cfg, v in combos:
         out += C.structure_subspaces(s3, 2, False, canonical=True, mode="single", builder=b, cfg=cfg, **VARIANTS[v])
+    out += C.structure_subspaces(s3, 2, False, canonical=True, mode="single", builder="bare", cfg="A", **VARIANTS[0])
     for b, cfg in (("disj", "A"), ("at", "C"), ("cat", "B")):
         out += C.structure_subspaces(D.shapes(2, 2), 2, True, only_flexible=True, mode="single", builder=b, cfg=cfg, **VARIANTS[0])
     for b, cfg in (("disj", "A"), ("at", "B"), ("cat", "C")):
@@ -137,8 +138,17 @@ def builder_fn(name):
     from job_shop_lib.graphs import (build_disjunctive_graph, build_agent_task_graph, build_agent_task_graph_with_jobs,
                                      build_complete_agent_task_graph)
 
+    def bare(instance):
+        # a graph assembled by hand from the public building blocks: the disjunctive graph without source and sink nodes
+        from job_shop_lib.graphs import JobShopGraph, add_disjunctive_edges, add_conjunctive_edges
+
+        g = JobShopGraph(instance)
+        add_disjunctive_edges(g)
+        add_conjunctive_edges(g)
+        return g
+
     return {"disj": build_disjunctive_graph, "at": build_agent_task_graph, "atj": build_agent_task_graph_with_jobs,
-            "cat": build_complete_agent_task_graph}[name]
+            "cat": build_complete_agent_task_graph, "bare": bare}[name]
 
 
 def env_kwargs(sp):
